@@ -191,6 +191,16 @@ def order_trav(ctx: Ctx) -> List[Ob]:
                           "" if not ctrl else f"`{norm(ctrl[0])[:60]}` lets the walk miss nodes"))
 
     # ---- recursive callback walkers
+    from ..pat import match as _match
+    from .util import always_before, never_after, path_conds
+
+    def is_skip_atom(e: ast.AST, subject: str) -> bool:
+        """`call_traversal_cb(callback, <subject>, memo) is False`"""
+        if not (isinstance(e, ast.Compare) and len(e.ops) == 1 and isinstance(e.ops[0], ast.Is) and isinstance(e.comparators[0], ast.Constant) and e.comparators[0].value is False):
+            return False
+        c = e.left
+        return isinstance(c, ast.Call) and _cb_call(c) is c and len(c.args) >= 2 and norm(c.args[1]) == subject
+
     for name, first in (("_visit_pre", "emit"), ("_visit_post", "descend")):
         f = m.func(f"Node.{name}")
         lp = _children_loop(ctx, f)
@@ -199,28 +209,28 @@ def order_trav(ctx: Ctx) -> List[Ob]:
         ok = len(descs) == 1 and len(lp.body) == 1
         obs.append(ctx.ob("ORDER-TRAV", ["C06"], f, f"{name}: exactly one recursive call per child, nothing else in the loop", lp, ok,
                           "" if ok else "children would be skipped or visited twice"))
-        # callback on self: position relative to the loop statement (top-level order in the function body)
-        body = f.body
-        def holds_loop(st):
-            return any(x is lp for x in ast.walk(st))
-        li = _top_index(body, holds_loop)
-        ci = _top_index(body, lambda st: _cb_call(st) is not None and not holds_loop(st))
-        if len(li) != 1 or len(ci) != 1:
-            raise AnalysisError(f"{f.qualname}: walker shape not recognised (loop statements {li}, callback statements {ci})")
-        cb = _cb_call(body[ci[0]])
+        cbs = [c for c in ctx.env.calls_in[f] if _cb_call(c) is c and not any(c is x for x in ast.walk(lp))]
+        if len(cbs) != 1:
+            raise AnalysisError(f"{f.qualname}: walker shape not recognised ({len(cbs)} callback invocations outside the child loop)")
+        cb = cbs[0]
         arg_ok = len(cb.args) >= 2 and norm(cb.args[0]) == "callback" and norm(cb.args[1]) == "self"
         obs.append(ctx.ob("ORDER-TRAV", ["C06"], f, f"{name}: the callback is normalised and applied to self", cb, arg_ok,
                           "" if arg_ok else f"`{norm(cb)}` does not call the user callback on this node"))
-        ok2 = (ci[0] < li[0]) == (first == "emit")
+        if first == "emit":
+            ok2 = always_before(ctx, f, cb, lp)
+        else:
+            ok2 = never_after(ctx, f, cb, lp) and not any(isinstance(x, ast.Return) for x in iter_own(f.node))
         obs.append(ctx.ob("ORDER-TRAV", ["C06"], f, f"{name}: {first} first", None, ok2,
                           "" if ok2 else "visit() must follow the same order as the iterator"))
         if first == "emit":
-            st = body[ci[0]]
-            ok3 = isinstance(st, ast.If) and norm(st.test).endswith("is False") and _cb_call(st.test) is not None \
-                and any(isinstance(x, ast.Return) for x in st.body)
-            obs.append(ctx.ob("ORDER-TRAV", ["C06"], f, f"{name}: a skip verdict (False from the normaliser) returns before the children", st, ok3,
+            ok3 = any((not pol) and is_skip_atom(e, "self") for e, pol in path_conds(ctx, f, lp))
+            obs.append(ctx.ob("ORDER-TRAV", ["C06"], f, f"{name}: a skip verdict (False from the normaliser) returns before the children", cb, ok3,
                               "" if ok3 else "SkipBranch must suppress exactly that node's descendants"))
-        # the loop must not be guarded by anything but the children test
+        # nothing but the children test (and the skip verdict) guards the descent
+        extra_g = [("" if pol else "not ") + norm(e) for e, pol in path_conds(ctx, f, lp)
+                   if not is_skip_atom(e, "self") and norm(e) not in ("self._children", "self.children", "self._children is None")]
+        obs.append(ctx.ob("ORDER-TRAV", ["C06"], f, f"{name}: the descent depends only on the node having children", lp, not extra_g,
+                          "" if not extra_g else f"extra condition {extra_g}: some branches would not be visited"))
     # ---- level walkers
     for name in ("_iter_level", "_visit_level"):
         f = m.func(f"Node.{name}")
@@ -233,7 +243,7 @@ def order_trav(ctx: Ctx) -> List[Ob]:
         ok = any(norm(e) in ("self._children", "self.children") for e in init)
         obs.append(ctx.ob("ORDER-TRAV", ["C06"], f, f"{name}: starts with self's children", None, ok,
                           "" if ok else "the first level must be the start node's child list"))
-        # next-level accumulator: reset at the top of each level, bound to `cur` at the end
+        # next-level accumulator: bound to `cur` as the last step of each round
         last = wl.body[-1]
         ok = isinstance(last, ast.Assign) and len(last.targets) == 1 and norm(last.targets[0]) == cur and isinstance(last.value, ast.Name)
         nxt = last.value.id if ok else None
@@ -241,87 +251,153 @@ def order_trav(ctx: Ctx) -> List[Ob]:
                           "" if ok else "the current level must be fully emitted before it is replaced by the next one"))
         if nxt is None:
             continue
-        resets = _top_index(wl.body, lambda st: isinstance(st, ast.Assign) and norm(st.targets[0]) == nxt and isinstance(st.value, ast.List) and not st.value.elts)
-        ok = resets == [0] or (resets and resets[0] == 0)
-        obs.append(ctx.ob("ORDER-TRAV", ["C06"], f, f"{name}: the next-level list is reset for every level", None, bool(ok),
-                          "" if ok else "a next-level list that is not reset re-emits earlier levels"))
+        # how the next level is built: either `nxt = []` + loop over the level with nxt.extend(<node>.children),
+        # or one comprehension over the level and each node's children
+        builds = [st for st in wl.body if isinstance(st, (ast.Assign, ast.AnnAssign)) and norm(st.targets[0] if isinstance(st, ast.Assign) else st.target) == nxt]
         fors = [st for st in wl.body if isinstance(st, ast.For) and norm(st.iter) == cur]
-        if len(fors) != 1 or not isinstance(fors[0].target, ast.Name):
-            raise AnalysisError(f"{f.qualname}: expected one loop over the current level")
-        fl = fors[0]
-        lv = fl.target.id
-        exts = [x for st in fl.body for x in ast.walk(st) if isinstance(x, ast.Call) and isinstance(x.func, ast.Attribute)
-                and norm(x.func.value) == nxt]
-        ok = len(exts) == 1 and exts[0].func.attr == "extend" and len(exts[0].args) == 1 and norm(exts[0].args[0]) in (f"{lv}._children", f"{lv}.children")
-        obs.append(ctx.ob("ORDER-TRAV", ["C06"], f, f"{name}: the next level is built by extending with each node's children, once, in order", fl, ok,
-                          "" if ok else "each node's children must be appended exactly once, in list order"))
+        fl = None
+        lv = None
+        exts: List[ast.Call] = []
+        skip_guard_ok = None
+        if len(builds) == 1 and isinstance(builds[0].value, ast.ListComp) and not fors:
+            lc = builds[0].value
+            gens = lc.generators
+            shape = len(gens) == 2 and norm(gens[0].iter) == cur and isinstance(gens[0].target, ast.Name) and isinstance(gens[1].target, ast.Name) \
+                and norm(gens[1].iter) in (f"{gens[0].target.id}._children", f"{gens[0].target.id}.children") and norm(lc.elt) == gens[1].target.id \
+                and not gens[1].ifs and all(norm(t) in (f"{gens[0].target.id}._children", f"{gens[0].target.id}.children") for t in gens[0].ifs)
+            obs.append(ctx.ob("ORDER-TRAV", ["C06"], f, f"{name}: the next-level list is reset for every level", None, True, ""))
+            obs.append(ctx.ob("ORDER-TRAV", ["C06"], f, f"{name}: the next level is built by extending with each node's children, once, in order", builds[0], shape,
+                              "" if shape else "each node's children must be appended exactly once, in list order"))
+            lv = gens[0].target.id if gens and isinstance(gens[0].target, ast.Name) else None
+        else:
+            resets = _top_index(wl.body, lambda st: isinstance(st, (ast.Assign, ast.AnnAssign)) and norm(st.targets[0] if isinstance(st, ast.Assign) else st.target) == nxt
+                                and isinstance(st.value, ast.List) and not st.value.elts)
+            ok = bool(resets) and resets[0] == 0
+            obs.append(ctx.ob("ORDER-TRAV", ["C06"], f, f"{name}: the next-level list is reset for every level", None, bool(ok),
+                              "" if ok else "a next-level list that is not reset re-emits earlier levels"))
+            if len(fors) != 1 or not isinstance(fors[0].target, ast.Name):
+                raise AnalysisError(f"{f.qualname}: expected one loop over the current level")
+            fl = fors[0]
+            lv = fl.target.id
+            exts = [x for st in fl.body for x in ast.walk(st) if isinstance(x, ast.Call) and isinstance(x.func, ast.Attribute)
+                    and norm(x.func.value) == nxt]
+            ok = len(exts) == 1 and exts[0].func.attr == "extend" and len(exts[0].args) == 1 and norm(exts[0].args[0]) in (f"{lv}._children", f"{lv}.children")
+            if ok:
+                # guarded by nothing but the children test (and, for visit, the skip verdict)
+                g = [("" if pol else "not ") + norm(e) for e, pol in path_conds(ctx, f, exts[0])
+                     if any(exts[0] is x for x in ast.walk(fl)) and not is_skip_atom(e, lv) and norm(e) not in (f"{lv}._children", f"{lv}.children", cur)]
+                ok = not g
+            obs.append(ctx.ob("ORDER-TRAV", ["C06"], f, f"{name}: the next level is built by extending with each node's children, once, in order", fl, ok,
+                              "" if ok else "each node's children must be appended exactly once, in list order"))
         if name == "_iter_level":
             ys = [x for st in wl.body for x in ast.walk(st) if isinstance(x, (ast.Yield, ast.YieldFrom))]
-            ifs = [st for st in wl.body if isinstance(st, ast.If) and norm(st.test) == "revert"]
-            ok = len(ys) == 2 and len(ifs) == 1
+            y_rev = [y for y in ys if isinstance(y, ast.YieldFrom) and norm(y.value) == f"reversed({cur})"]
+            y_fwd = [y for y in ys if isinstance(y, ast.YieldFrom) and norm(y.value) == cur]
+            ok = len(ys) == 2 and len(y_rev) == 1 and len(y_fwd) == 1
             if ok:
-                st = ifs[0]
-                t_body = norm(st.body[0]) if st.body else ""
-                f_body = norm(st.orelse[0]) if st.orelse else ""
-                ok = t_body == f"yield from reversed({cur})" and f_body == f"yield from {cur}" and len(st.body) == 1 and len(st.orelse) == 1
+                cr = [(norm(e), pol) for e, pol in path_conds(ctx, f, y_rev[0]) if norm(e) != cur]
+                cf = [(norm(e), pol) for e, pol in path_conds(ctx, f, y_fwd[0]) if norm(e) != cur]
+                ok = cr == [("revert", True)] and cf == [("revert", False)]
             obs.append(ctx.ob("ORDER-TRAV", ["C06"], f, "_iter_level: each level is emitted once, reversed iff `revert`", None, ok,
                               "" if ok else "the level must be yielded exactly once: reversed(children) when revert is set, children otherwise"))
-            tg = [st for st in wl.body if isinstance(st, ast.If) and norm(st.test) == "toggle"]
-            ok = len(tg) == 1 and len(tg[0].body) == 1 and norm(tg[0].body[0]) == "revert = not revert" and not tg[0].orelse
+            from .util import find_under as _fu
+
+            tg = _fu(ctx, f, "revert = not revert", [("toggle", True)])
+            ok = len(tg) == 1 and len(find_all_assign(f, "revert")) == 1 and any(tg[0][0] is x for st in wl.body for x in ast.walk(st))
             obs.append(ctx.ob("ORDER-TRAV", ["C06"], f, "_iter_level: `toggle` flips the direction once per level", None, ok,
                               "" if ok else "zigzag must alternate direction on every level"))
-            if ifs and tg:
-                ok = wl.body.index(ifs[0]) < wl.body.index(tg[0])
+            if ys and tg:
+                before_tg = _stmts_before_in(ctx, f, tg[0][0], wl)
+                ok = all(any(y is x for s_ in before_tg for x in ast.walk(s_)) for y in ys)
                 obs.append(ctx.ob("ORDER-TRAV", ["C06"], f, "_iter_level: the level is emitted before the direction flips", None, ok,
                                   "" if ok else "the first level of ZIGZAG must run left-to-right"))
-            ctrl = [x for st in fl.body for x in ast.walk(st) if isinstance(x, (ast.Break, ast.Continue, ast.Return))]
+            ctrl = [x for st in (fl.body if fl is not None else []) for x in ast.walk(st) if isinstance(x, (ast.Break, ast.Continue, ast.Return))]
             obs.append(ctx.ob("ORDER-TRAV", ["C06"], f, "_iter_level: no node of a level is skipped", fl, not ctrl,
                               "" if not ctrl else "a break/continue in the level loop loses descendants"))
         else:
-            cb = _cb_call(fl)
-            ok = cb is not None and len(cb.args) >= 2 and norm(cb.args[0]) == "callback" and norm(cb.args[1]) == lv
+            if fl is None:
+                raise AnalysisError(f"{f.qualname}: expected one loop over the current level")
+            cbs = [c for c in ctx.env.calls_in[f] if _cb_call(c) is c and any(c is x for x in ast.walk(fl))]
+            ok = len(cbs) == 1 and len(cbs[0].args) >= 2 and norm(cbs[0].args[0]) == "callback" and norm(cbs[0].args[1]) == lv \
+                and _unconditional_in(ctx, f, cbs[0], fl)
             obs.append(ctx.ob("ORDER-TRAV", ["C06"], f, "_visit_level: the callback is applied to every node of the level", fl, ok,
                               "" if ok else "the callback must be called once per node"))
-            # skip verdict: `if cb(...) is False: continue` before the extend
-            st0 = [st for st in fl.body if isinstance(st, ast.If) and _cb_call(st.test) is not None]
-            ok = bool(st0) and norm(st0[0].test).endswith("is False") and any(isinstance(x, ast.Continue) for x in st0[0].body) \
-                and bool(exts) and fl.body.index(st0[0]) < [i for i, st in enumerate(fl.body) if any(x is exts[0] for x in ast.walk(st))][0]
+            ok = bool(exts) and any((not pol) and is_skip_atom(e, lv) for e, pol in path_conds(ctx, f, exts[0]))
             obs.append(ctx.ob("ORDER-TRAV", ["C06"], f, "_visit_level: a skip verdict keeps the node's children out of the next level", fl, bool(ok),
                               "" if ok else "SkipBranch must suppress exactly that node's descendants"))
     return obs
 
 
+def find_all_assign(f: Func, name: str) -> List[ast.AST]:
+    return [n for n in iter_own(f.node) if isinstance(n, (ast.Assign, ast.AugAssign, ast.AnnAssign))
+            and any(isinstance(t, ast.Name) and t.id == name for t in (n.targets if isinstance(n, ast.Assign) else [n.target]))]
+
+
+def _stmts_before_in(ctx: Ctx, f: Func, node: ast.AST, scope: ast.AST) -> List[ast.stmt]:
+    from .util import stmts_before
+
+    inside = {id(x) for x in ast.walk(scope)}
+    return [s for s in stmts_before(ctx, f, node) if id(s) in inside]
+
+
+def _unconditional_in(ctx: Ctx, f: Func, node: ast.AST, scope: ast.AST) -> bool:
+    """`node` is evaluated on every round of `scope` (a loop): no condition
+    inside the loop guards it other than being the first operand of its own test."""
+    from .util import path_conds
+
+    inside = {id(x) for x in ast.walk(scope)}
+    for e, _pol in path_conds(ctx, f, node):
+        e = getattr(e, "_orig", e)
+        if id(e) in inside and not any(node is x for x in ast.walk(e)):
+            return False
+    return True
+
+
 @rule("SIB-ITER", ["C06"], floor=8, section="3.7")
 def sib_iter(ctx: Ctx) -> List[Ob]:
     """Node.iterator and Node.visit agree on where the start node goes: first for every method except post-order, last for post-order; visit() returns the value carried by StopTraversal"""
+    from .util import always_before, never_after, path_conds
+
     obs: List[Ob] = []
     m = ctx.model
+
+    def method_case(pcs) -> Optional[str]:
+        """'pre' (method != POST_ORDER known), 'post' (== POST_ORDER), 'level' (== LEVEL_ORDER), None"""
+        for e, pol in pcs:
+            t = norm(e)
+            if t == "method == IterMethod.POST_ORDER":
+                return "post" if pol else "pre"
+            if t == "method == IterMethod.LEVEL_ORDER" and pol:
+                return "level"
+        return None
+
+    def has_pos(pcs, text: str) -> bool:
+        return any(pol and norm(e) == text for e, pol in pcs)
+
     # iterator
     f = m.func("Node.iterator")
-    body = f.body
     hv = None
     for n in iter_own(f.node):
         if isinstance(n, ast.Assign) and isinstance(n.value, ast.Call) and norm(n.value.func) == "getattr" and isinstance(n.targets[0], ast.Name):
             hv = n.targets[0].id
-    desc = _top_index(body, lambda st: isinstance(st, ast.Expr) and isinstance(st.value, ast.YieldFrom) and hv is not None and norm(st.value.value) == f"{hv}()")
+    desc = [x for x in iter_own(f.node) if isinstance(x, ast.YieldFrom) and hv is not None and norm(x.value) == f"{hv}()"]
     if len(desc) != 1:
         raise AnalysisError("Node.iterator: `yield from <selected walker>()` not found")
-    def self_emit(st, op):
-        if not isinstance(st, ast.If):
-            return False
-        t = norm(st.test)
-        return "add_self" in t and f"method {op} IterMethod.POST_ORDER" in t and len(st.body) == 1 and norm(st.body[0]) == "yield self" and not st.orelse
-    pre = _top_index(body, lambda st: self_emit(st, "!="))
-    post = _top_index(body, lambda st: self_emit(st, "=="))
-    ok = len(pre) == 1 and pre[0] < desc[0]
+    selfs = [x for x in iter_own(f.node) if isinstance(x, ast.Yield) and x.value is not None and norm(x.value) == "self"]
+    pre = [y for y in selfs if has_pos(path_conds(ctx, f, y), "add_self") and method_case(path_conds(ctx, f, y)) == "pre"]
+    post = [y for y in selfs if has_pos(path_conds(ctx, f, y), "add_self") and method_case(path_conds(ctx, f, y)) == "post"]
+    ok = len(pre) == 1 and never_after(ctx, f, desc[0], pre[0]) and len(path_conds(ctx, f, pre[0])) == 2
     obs.append(ctx.ob("SIB-ITER", ["C06"], f, "iterator: add_self yields self first unless post-order", None, ok,
                       "" if ok else "add_self must put the start node first for every method except POST_ORDER"))
-    ok = len(post) == 1 and post[0] > desc[0]
+    ok = len(post) == 1 and never_after(ctx, f, post[0], desc[0]) and len(path_conds(ctx, f, post[0])) == 2
     obs.append(ctx.ob("SIB-ITER", ["C06"], f, "iterator: add_self yields self last for post-order", None, ok,
                       "" if ok else "add_self must put the start node last for POST_ORDER"))
     ys = [x for x in iter_own(f.node) if isinstance(x, (ast.Yield, ast.YieldFrom))]
     obs.append(ctx.ob("SIB-ITER", ["C06"], f, "iterator: exactly three emission points (self-first, walker, self-last)", None, len(ys) == 3,
                       "" if len(ys) == 3 else f"{len(ys)} yield statements: a node would be emitted twice or never"))
+    uncond = not path_conds(ctx, f, desc[0])
+    obs.append(ctx.ob("SIB-ITER", ["C06"], f, "iterator: the walker runs unconditionally", desc[0], uncond,
+                      "" if uncond else "descendants would be left out under some condition"))
     # visit
     f = m.func("Node.visit")
     hv = None
@@ -344,45 +420,40 @@ def sib_iter(ctx: Ctx) -> List[Ob]:
         outside = [c for c in calls if id(c) not in inside]
         obs.append(ctx.ob("SIB-ITER", ["C06"], f, "visit: every callback invocation happens inside the StopTraversal handler", None, not outside and bool(calls),
                           "" if not outside and calls else f"`{norm(outside[0]) if outside else '?'}` runs outside the handler: a stop signal would escape as an exception"))
-        tb = tr.body
-        # pre/post placement of self among the top-level statements of the try body
-        def cb_on_self(st, op):
-            if not isinstance(st, ast.If):
-                return False
-            t = norm(st.test)
-            if not ("add_self" in t and f"method {op} IterMethod.POST_ORDER" in t):
-                return False
-            c = _cb_call(st)
-            return c is not None and len(c.args) >= 2 and norm(c.args[1]) == "self"
-        loop = _top_index(tb, lambda st: isinstance(st, ast.For) and norm(st.iter) in ("self.children", "self._children", "self._children or ()"))
-        pre = _top_index(tb, lambda st: cb_on_self(st, "!="))
-        post = _top_index(tb, lambda st: cb_on_self(st, "=="))
-        ok = len(loop) == 1 and len(pre) == 1 and pre[0] < loop[0]
+        cbs = [c for c in ctx.env.calls_in[f] if _cb_call(c) is c and len(c.args) >= 2 and norm(c.args[1]) == "self"]
+        loops = [n for n in iter_own(f.node) if isinstance(n, ast.For) and norm(n.iter) in ("self.children", "self._children", "self._children or ()")]
+        by_case: Dict[str, List[ast.Call]] = {}
+        for c in cbs:
+            pcs = path_conds(ctx, f, c)
+            if has_pos(pcs, "add_self"):
+                by_case.setdefault(method_case(pcs) or "?", []).append(c)
+        pre, post, lev = by_case.get("pre", []), by_case.get("post", []), by_case.get("level", [])
+        ok = len(loops) == 1 and len(pre) == 1 and never_after(ctx, f, loops[0], pre[0])
         obs.append(ctx.ob("SIB-ITER", ["C06"], f, "visit: add_self calls back on self first unless post-order", None, ok,
                           "" if ok else "visit() must follow the iterator: start node first except for POST_ORDER"))
-        ok = len(loop) == 1 and len(post) == 1 and post[0] > loop[0]
+        ok = len(loops) == 1 and len(post) == 1 and never_after(ctx, f, post[0], loops[0])
         obs.append(ctx.ob("SIB-ITER", ["C06"], f, "visit: add_self calls back on self last for post-order", None, ok,
                           "" if ok else "visit() must follow the iterator: start node last for POST_ORDER"))
-        if len(pre) == 1:
-            st = tb[pre[0]]
-            inner = [x for x in ast.walk(st) if isinstance(x, ast.If) and _cb_call(x.test) is not None]
-            ok = bool(inner) and norm(inner[0].test).endswith("is False") and any(isinstance(y, ast.Return) for y in inner[0].body)
-            obs.append(ctx.ob("SIB-ITER", ["C06"], f, "visit: a skip verdict on the start node ends the visit", st, ok,
+        if len(pre) == 1 and len(loops) == 1:
+            # the child loop is reached only if the callback on the start node did not answer False
+            ok = any((not pol) and any(pre[0] is x for x in ast.walk(getattr(e, "_orig", e))) and "is False" in norm(e) for e, pol in path_conds(ctx, f, loops[0]))
+            obs.append(ctx.ob("SIB-ITER", ["C06"], f, "visit: a skip verdict on the start node ends the visit", pre[0], ok,
                               "" if ok else "SkipBranch on the start node must suppress all descendants"))
-        if len(loop) == 1:
-            lp = tb[loop[0]]
+        if len(loops) == 1:
+            lp = loops[0]
             ok = len(lp.body) == 1 and isinstance(lp.body[0], ast.Expr) and isinstance(lp.body[0].value, ast.Call) \
                 and norm(lp.body[0].value.func) == hv and [norm(a) for a in lp.body[0].value.args] == [norm(lp.target), "callback", "memo"]
             obs.append(ctx.ob("SIB-ITER", ["C06"], f, "visit: each child is handed to the selected walker with callback and memo", lp, ok,
                               "" if ok else "every child branch must be walked once by the method's walker"))
         # level-order branch
-        lev = [st for st in tb if isinstance(st, ast.If) and norm(st.test) == "method == IterMethod.LEVEL_ORDER"]
-        ok = len(lev) == 1 and tb.index(lev[0]) == 0
+        lvl_calls = [c for c in ctx.env.calls_in[f] if norm(c.func) == "self._visit_level"]
+        ok = len(lvl_calls) == 1 and len(lev) == 1 and len(loops) == 1
         if ok:
-            lb = lev[0].body
-            c_self = _top_index(lb, lambda st: isinstance(st, ast.If) and norm(st.test) == "add_self" and _cb_call(st) is not None)
-            c_lvl = _top_index(lb, lambda st: isinstance(st, ast.Expr) and isinstance(st.value, ast.Call) and norm(st.value.func) == "self._visit_level")
-            ok = len(c_self) == 1 and len(c_lvl) == 1 and c_self[0] < c_lvl[0] and isinstance(lb[-1], ast.Return)
+            lc = lvl_calls[0]
+            pcs = path_conds(ctx, f, lc)
+            ok = method_case(pcs) == "level" and never_after(ctx, f, lc, lev[0]) and never_after(ctx, f, lc, loops[0]) \
+                and any((not pol) and any(lev[0] is x for x in ast.walk(getattr(e, "_orig", e))) for e, pol in pcs) \
+                and any((not pol) and norm(e) == "method == IterMethod.LEVEL_ORDER" for e, pol in path_conds(ctx, f, loops[0]))
         obs.append(ctx.ob("SIB-ITER", ["C06"], f, "visit: level-order visits self first (add_self), then the levels, then returns", None, ok,
                           "" if ok else "the level-order branch must not fall through to the depth-first code"))
     return obs
@@ -416,19 +487,16 @@ def exh2(ctx: Ctx) -> List[Ob]:
     """the callback normalisers cover every documented control value (returned or raised), user callbacks are invoked only inside them, and traversal sites act on the normalised result"""
     obs: List[Ob] = []
     m = ctx.model
+    from .util import exit_cases, reaching_values
+
     f = m.func("call_traversal_cb")
     tries = [n for n in iter_own(f.node) if isinstance(n, ast.Try)]
     if len(tries) != 1:
         raise AnalysisError("call_traversal_cb: try block not found")
     tr = tries[0]
-    chain = None
-    for st in tr.body:
-        if isinstance(st, ast.If):
-            chain = _if_chain(st)
-    if chain is None:
-        raise AnalysisError("call_traversal_cb: result dispatch chain not found")
     # names: fn = first parameter; res = the variable holding fn(node, memo)
     fnp, ndp, mmp = f.positional_params()[:3]
+    call0 = [n for st in tr.body for n in ast.walk(st) if isinstance(n, ast.Call) and norm(n) == f"{fnp}({ndp}, {mmp})"]
     resv = None
     for st in tr.body:
         if isinstance(st, ast.Assign) and isinstance(st.value, ast.Call) and norm(st.value) == f"{fnp}({ndp}, {mmp})" and isinstance(st.targets[0], ast.Name):
@@ -441,15 +509,23 @@ def exh2(ctx: Ctx) -> List[Ob]:
 
         return re.sub(rf"\b{re.escape(resv)}\b", "res", t)
 
+    in_try_body = {id(x) for st in tr.body for x in ast.walk(st)}
     cases: Dict[str, str] = {}
-    for test, body in chain:
-        act = canon(_action(body))
-        if test is None:
-            cases["<else>"] = act
+    default_act = None
+    for c in exit_cases(ctx, f, ("return", "raise")):
+        if id(c.stmt) not in in_try_body:
             continue
-        ts = test.values if isinstance(test, ast.BoolOp) and isinstance(test.op, ast.Or) else [test]
-        for t in ts:
-            cases[canon(norm(t))] = act
+        act = canon(("return " + (norm(c.value) if c.value is not None else "None")) if c.kind == "return" else ("raise " + (norm(c.value) if c.value is not None else "")))
+        pos = []
+        for e, pol in c.conds:
+            if not pol:
+                continue
+            for d in (e.values if isinstance(e, ast.BoolOp) and isinstance(e.op, ast.Or) else [e]):
+                pos.append(canon(norm(d)))
+        if not pos:
+            default_act = act if default_act is None else default_act + " | " + act
+        for t in pos:
+            cases[t] = act if t not in cases else cases[t] + " | " + act
     want = {
         "res is None": ("return None", "no verdict: continue"),
         "res is SkipBranch": ("return False", "SkipBranch class returned"),
@@ -462,12 +538,14 @@ def exh2(ctx: Ctx) -> List[Ob]:
     }
     for t, (act, why) in want.items():
         got = cases.get(t)
-        ok = got is not None and (got == act or (act == "raise StopTraversal" and got.startswith("raise StopTraversal")))
+        ok = got is not None and (got == act or (act == "raise StopTraversal" and got.startswith("raise StopTraversal") and "|" not in got))
         obs.append(ctx.ob("EXH-2", ["C06"], f, f"returned `{t}` -> {act}", None, ok,
                           "" if ok else f"{why}: got `{got}`; the documented control value is not honoured"))
-    got = cases.get("<else>", "")
-    ok = got.startswith("raise ValueError")
+    got = default_act or ""
+    ok = got.startswith("raise ValueError") and "|" not in got
     obs.append(ctx.ob("EXH-2", ["C06"], f, "other return values are rejected", None, ok, "" if ok else "unknown verdicts must not be taken for a control signal"))
+    extra = set(cases) - set(want)
+    obs.append(ctx.ob("EXH-2", ["C06"], f, "no undocumented return value is taken for a control signal", None, not extra, "" if not extra else f"extra cases {sorted(extra)}"))
     hs = {norm(h.type) if h.type is not None else "": h for h in tr.handlers}
     h = hs.get("SkipBranch")
     ok = h is not None and _action(h.body) == "return False"
@@ -478,8 +556,8 @@ def exh2(ctx: Ctx) -> List[Ob]:
     obs.append(ctx.ob("EXH-2", ["C06"], f, "raised StopIteration -> StopTraversal(e.value)", None, ok, "" if ok else "StopIteration must stop the traversal and carry its value"))
     ok = not any(t in hs for t in ("StopTraversal", "IterationControl", "Exception", "BaseException", ""))
     obs.append(ctx.ob("EXH-2", ["C06"], f, "raised StopTraversal propagates to visit()", None, ok, "" if ok else "the normaliser must not swallow the stop signal"))
-    call0 = [st for st in tr.body if isinstance(st, ast.Assign) and isinstance(st.value, ast.Call) and norm(st.value) == f"{fnp}({ndp}, {mmp})"]
-    obs.append(ctx.ob("EXH-2", ["C06"], f, "the callback is called once as fn(node, memo)", None, len(call0) == 1 and tr.body.index(call0[0]) == 0,
+    all_calls = [n for n in iter_own(f.node) if isinstance(n, ast.Call) and isinstance(n.func, ast.Name) and n.func.id == fnp]
+    obs.append(ctx.ob("EXH-2", ["C06"], f, "the callback is called once as fn(node, memo)", None, len(call0) == 1 and len(all_calls) == 1,
                       "" if call0 else "callback invocation not found"))
 
     # call_predicate
@@ -496,8 +574,28 @@ def exh2(ctx: Ctx) -> List[Ob]:
     ok = h is not None and h.name is not None and _action(h.body) == f"return StopTraversal({h.name}.value)"
     obs.append(ctx.ob("EXH-2", ["C08"], f, "raised StopIteration -> StopTraversal verdict", None, ok, "" if ok else "StopIteration must end the scan"))
     fnp2, ndp2 = f.positional_params()[:2]
-    asg = [st for st in tr.body if isinstance(st, ast.Assign) and norm(st.value) == f"{fnp2}({ndp2})" and isinstance(st.targets[0], ast.Name)]
-    ok = len(asg) == 1 and any(isinstance(st, ast.Return) and st.value is not None and norm(st.value) == asg[0].targets[0].id for st in f.body)
+    in_handlers = {id(x) for h_ in tr.handlers for x in ast.walk(h_)}
+    calls = [n for n in iter_own(f.node) if isinstance(n, ast.Call) and norm(n) == f"{fnp2}({ndp2})"]
+
+    def is_result(e: ast.AST, at: ast.AST, depth: int = 0) -> bool:
+        """fn(node) itself, or an instance made from it when it is a control class: res()"""
+        if depth > 3:
+            return False
+        if norm(e) == f"{fnp2}({ndp2})":
+            return True
+        if isinstance(e, ast.Call) and not e.args and not e.keywords and isinstance(e.func, ast.Name):
+            here = e
+            while here is not None and not isinstance(here, ast.stmt):
+                here = m.parent_of(here)
+            vs = [v for v in reaching_values(ctx, f, here or at, e.func) if v is not e]
+            return bool(vs) and all(is_result(v, here or at, depth + 1) for v in vs)
+        if isinstance(e, ast.Name):
+            vs = reaching_values(ctx, f, at, e)
+            return vs != [e] and all(is_result(v, at, depth + 1) for v in vs)
+        return False
+
+    rets = [c for c in exit_cases(ctx, f, ("return",)) if id(c.stmt) not in in_handlers and c.value is not None]
+    ok = len(calls) == 1 and bool(rets) and all(is_result(c.value, c.stmt) for c in rets)
     obs.append(ctx.ob("EXH-2", ["C08"], f, "the predicate's own result is passed through", None, ok, "" if ok else "the verdict must be the predicate's return value"))
 
     # who may call user callbacks of the traversal / predicate kind
